@@ -414,6 +414,16 @@ def combiners(tier):
 
 def conveyor_lines(tier):
     out = []
+    # a four-slot belt in front of a slow machine, arrival and service periods that coincide now and then: items wait at the
+    # exit, new ones arrive in the instant the consumer becomes free
+    for ek in ("cconvN", "cconvA", "sconvN", "sconvA"):
+        c = line(ek, "buf0", n=6, until=40, iat=[4.5, 5, 0.5], pd=[5, 4.5])
+        if ek.startswith("cconv"):
+            c["edges"][0]["clen"] = 4
+        else:
+            c["edges"][0]["cap"] = 4
+        c["tag"] = c["tag"][:-1] + ",four slots,periods 4.5 and 5)"
+        out.append(c)
     # two conveyors in a row, the second one slower than the first: its own entry spacing must hold for items that already travelled
     for e1, e2 in (("sconvA", "sconvA"), ("cconvA", "sconvA"), ("sconvA", "cconvA"), ("sconvN", "sconvN")):
         c = line(e1, e2, n=5, until=18, pd=[0.25, 0])
